@@ -32,7 +32,7 @@ import (
 var c07Hosts = []string{
 	"example.org", "ads.example.org", "tracker.ads.example.net", "cdn.example.com",
 	"xn--e1afmkfd.example", "a.b", "ignored.example", "sub.ignored.example", "host-7.lan",
-	"EXAMPLE.io",
+	"EXAMPLE.io", "a&b.example.org", "x<y.example.net",
 }
 
 var c07IPs = []string{"192.168.1.5", "192.168.1.55", "10.0.0.1", "2001:db8::1", "127.0.0.1"}
@@ -954,6 +954,7 @@ var c07Terms = []string{
 	"example", "EXAMPLE.ORG", `"example.org"`, `"ads.example.org"`, "ads", "192.168.1.5", `"192.168.1.5"`,
 	"192.168.1", "phone", `"phone"`, "Kitchen", `"kitchen"`, "alices", "пример", `"пример.example"`,
 	"2001:db8", "laptop", "nomatch-zzz", `""`, "a.b", ".", "tv", "router", "xn--",
+	"a&b", "<y", `"a&b.example.org"`, "&",
 }
 
 func c07History(t *testing.T, out *vfOut, r *vfRand, nops int, mem uint, fileEnabled bool, tag string) {
